@@ -1226,7 +1226,7 @@ Record outcome := mkOut { o_stmts : list stmt; o_state : st }.
 (* Qasm2Module._filter_statements: top-level statement kinds allowed in an OpenQASM 2 module *)
 Definition qasm2_allowed (s : stmt) : bool :=
   match s with
-  | SIf _ _ _ | SQubitDecl _ _ | SClassicalDecl _ _ _ | SInclude _ | SGateDef _ _ _ _
+  | SIf _ _ _ | SQubitDecl _ _ | SClassicalDecl (TBit _) _ _ | SInclude _ | SGateDef _ _ _ _
   | SGate _ _ _ _ | SMeasure _ _ | SReset _ | SBarrier _ => true
   | _ => false
   end.
